@@ -88,6 +88,16 @@ def run():
 
 
 def replay(path):
+    """re-executes the recorded case on the current tree and lets TLC judge it again: exit 1 if it is still rejected"""
     d = json.load(open(path))
-    print(json.dumps(d, indent=1)[:6000])
+    print(json.dumps({k: v for k, v in d.items() if k != "replay"}, indent=1)[:3000])
+    print("data file:\n" + d["replay"].get("data_file", "")[:4000])
+    rej = semlib.replay_rows(path)
+    if rej is None:
+        return 0
+    mine = [r for r in rej if str(r[2]).startswith(d["property"] + ":") or d["property"] == "C02"]
+    if mine:
+        print("VIOLATION property=%s replay=%s" % (d["property"], path))
+        return 1
+    print("not reproduced on the current tree")
     return 0
